@@ -82,11 +82,22 @@ func (vc *VC) storedRefsAllocated(name string, h Term, top Term) {
 		inner := arrayValSort(h.Sort)
 		kk := arrayKeySort(inner)
 		sel := fmt.Sprintf("(select (select %s m) k)", h.S)
-		vc.assume(Term{fmt.Sprintf("(forall ((m %s) (k %s)) (! (<= (base %s) %s) :pattern (%s)))", ks, kk, refOf(sel), top.S, sel), SBool})
+		guard := "true"
+		if ks == SInt {
+			guard = fmt.Sprintf("(<= (base m) %s)", top.S)
+		}
+		vc.assume(Term{fmt.Sprintf("(forall ((m %s) (k %s)) (! (=> %s (<= (base %s) %s)) :pattern (%s)))", ks, kk, guard, refOf(sel), top.S, sel), SBool})
 		return
 	}
+	// only cells of objects that exist (base <= top) are constrained: the content of the heap at addresses not yet
+	// allocated is arbitrary - a callee that allocates an object may state in its postcondition what its fields hold,
+	// including references allocated after this heap value was taken
 	sel := fmt.Sprintf("(select %s r)", h.S)
-	vc.assume(Term{fmt.Sprintf("(forall ((r %s)) (! (<= (base %s) %s) :pattern (%s)))", ks, refOf(sel), top.S, sel), SBool})
+	guard := "true"
+	if ks == SInt {
+		guard = fmt.Sprintf("(<= (base r) %s)", top.S)
+	}
+	vc.assume(Term{fmt.Sprintf("(forall ((r %s)) (! (=> %s (<= (base %s) %s)) :pattern (%s)))", ks, guard, refOf(sel), top.S, sel), SBool})
 }
 
 // mapWF: representation invariant of the map model for the current constants of
@@ -131,6 +142,7 @@ type Obligation struct {
 type VC struct {
 	ghostAt         ssa.Instruction // the anchor instruction of the ghost statement being executed
 	anchorsHit      map[string]bool
+	adoptedHit      map[int]bool // loop contracts taken over by loops of inlined helpers
 	p               *Prog
 	env             *Env
 	fn              *ssa.Function
@@ -170,7 +182,7 @@ type VC struct {
 
 func NewVC(p *Prog, fn *ssa.Function, c *Contract) *VC {
 	vc := &VC{p: p, env: NewEnv(), fn: fn, c: c, defs: map[string]*defInfo{}, trustedUsed: map[string]bool{}, inlinedFns: map[string]bool{},
-		calledContracts: map[string]bool{}, lemmasUsed: map[string]bool{}, globalRefs: map[*ssa.Global]Term{}, ifaceAsserted: map[string]types.Type{}, concreteTags: map[string]types.Type{}, fnTags: map[*ssa.Function]int{}}
+		calledContracts: map[string]bool{}, lemmasUsed: map[string]bool{}, globalRefs: map[*ssa.Global]Term{}, ifaceAsserted: map[string]types.Type{}, concreteTags: map[string]types.Type{}, fnTags: map[*ssa.Function]int{}, adoptedHit: map[int]bool{}}
 	vc.env.Decl("godiv", "(define-fun godiv ((a Int) (b Int)) Int (ite (= b 0) 0 (ite (>= a 0) (ite (> b 0) (div a b) (- (div a (- b)))) (ite (> b 0) (- (div (- a) b)) (div (- a) (- b))))))")
 	vc.env.Decl("gomod", "(define-fun gomod ((a Int) (b Int)) Int (- a (* b (godiv a b))))")
 	vc.env.DeclFun("impl", []Sort{SInt, SInt}, SBool)
